@@ -657,7 +657,10 @@ func vC17Run(k *vKit, c vSx) {
 	}
 	cp := make([][]byte, len(segs))
 	copy(cp, segs)
-	if err := Unmarshal(&vC17Src{segs: cp, fin: 0, dt: dt}, &got); err != nil {
+	var err error
+	if msg := vPanicText(func() { err = Unmarshal(&vC17Src{segs: cp, fin: 0, dt: dt}, &got) }); msg != "" {
+		fail("no-panic", "Unmarshal panicked on "+show(dec)+": "+msg)
+	} else if err != nil {
 		fail("unmarshal-equal", fmt.Sprintf("Unmarshal of %s failed: %v; encoding/json decodes the undecorated text", show(dec), err))
 	} else if !reflect.DeepEqual(got, want) {
 		fail("unmarshal-equal", fmt.Sprintf("Unmarshal of %s gave %#v, encoding/json on the undecorated text gives %#v", show(dec), got, want))
@@ -667,24 +670,25 @@ func vC17Run(k *vKit, c vSx) {
 func TestVerifC17(t *testing.T) {
 	k := vNewKit(t, "C17")
 	defer k.close()
+	run := func(c vSx) { k.safely(c, func() { vC17Run(k, c) }) }
 	if k.replay != nil {
-		vC17Run(k, *k.replay)
+		run(*k.replay)
 		return
 	}
 	for _, c := range k.corpus() {
-		vC17Run(k, c)
+		run(c)
 	}
 	n := k.N(2500, 40000)
 	for i := 0; i < n; i++ {
 		switch {
 		case i%5 == 4:
-			vC17Run(k, vC17GenRaw(k.rnd))
+			run(vC17GenRaw(k.rnd))
 		default:
-			vC17Run(k, vC17GenDoc(k.rnd))
+			run(vC17GenDoc(k.rnd))
 		}
 	}
 	nb := k.N(10, 80)
 	for i := 0; i < nb; i++ {
-		vC17Run(k, vC17GenBig(k.rnd))
+		run(vC17GenBig(k.rnd))
 	}
 }
